@@ -14,6 +14,8 @@ use vcommon::ids::{check_output, draw_limit, id_program, IdLedger};
 pub fn judge(plan: &ExecPlan, stats: &mut Stats) -> (Vec<(String, String, String)>, ExecResult) {
     let mut fails = vec![];
     let r = execute(plan);
+    stats.fold(r.interleaving);
+    stats.fold(r.context_switches as u64);
     stats.inc("executions");
     stats.add("compilations", plan.tasks.iter().map(|t| t.len() as u64).sum());
     stats.add("scheduler_steps", r.context_switches as u64);
